@@ -9,7 +9,7 @@ for d in seeded/*/; do
   cd /verif
   out=$(./check $prop --tier quick 2>&1); code=$?
   git -C /repo checkout -- .
-  first=$(echo "$out" | grep -m1 "^  violation" | cut -c1-260)
+  first=$(printf "%s\n" "$out" | grep -m1 "^  violation" | cut -c1-260)
   echo "$id exit=$code $first"
   python3 - "$d/meta.json" "$prop" "$code" "$first" <<'PY'
 import json,sys
